@@ -126,7 +126,71 @@ Fixpoint run_dsteps (acks : N) (c : cfg) (st : primary * list store) (l : list d
   | s :: r => match dstep_ok acks c st s with Some st' => run_dsteps acks c st' r | None => false end
   end.
 
+(* ---- a SYNCED replica store (Options.Synced = true, no background sync within the case, external
+   commit allowance): the three frontiers committed <= durably precommitted <= precommitted in memory
+   differ; only an explicit Sync() makes precommitted transactions durable and commits the allowed
+   ones.  The durable frontier is kept beside the model's store (this wrapper is an executable
+   oracle of the tie; the theorems are about the unsynced store). ---- *)
+(* what the store reports: CommittedAlh(), PrecommittedAlh() (the DURABLE precommitted transaction),
+   LastPrecommittedTxID() (in memory) *)
+Inductive yobs := YObs (cid : N) (calh : bytes) (did : N) (dalh : bytes) (mid : N).
+
+Definition yobs_of (st : store) (d : N) : yobs :=
+  let '(did, dalh) :=
+    if d =? com_id st then (com_id st, com_alh Hs st)
+    else if d =? pre_id st then (pre_id st, pre_alh Hs st)
+    else (d, match alh_at st d with Some a => a | None => [] end) in
+  YObs (com_id st) (com_alh Hs st) did dalh (pre_id st).
+Definition yobs_eqb (a b : yobs) : bool :=
+  match a, b with
+  | YObs c1 a1 d1 b1 m1, YObs c2 a2 d2 b2 m2 =>
+      (c1 =? c2) && bytes_eqb a1 a2 && (d1 =? d2) && bytes_eqb b1 b2 && (m1 =? m2)
+  end.
+
+Inductive ystep :=
+| YsDeliver (skip : bool) (b : bytes) (after : yobs)   (* ReplicateTx; it returns when its context expires *)
+| YsSync (after : yobs)                                (* ImmuStore.Sync() *)
+| YsAllow (t : N) (ok : bool) (after : yobs)           (* AllowCommitUpto: takes effect at the next Sync *)
+| YsDiscard (t : N) (out : res N) (after : yobs).
+
+(* state: the model's store (its allowance is kept equal to the committed id, so that performPrecommit's
+   inline mayCommit does nothing, as in a synced store), the durable frontier, the pending allowance *)
+Definition ystep_ok (c : cfg) (sda : store * N * N) (s : ystep) : option (store * N * N) :=
+  let '(st, d, al) := sda in
+  match s with
+  | YsDeliver skip b after =>
+      let st' := replicate_st Hs c skip st b in
+      if yobs_eqb (yobs_of st' d) after then Some (st', d, al) else None
+  | YsSync after =>
+      let st' := may_commit c {| s_com := s_com st; s_tail := s_tail st; s_allowed := al;
+                                 s_ghost := s_ghost st; s_cap := s_cap st |} in
+      let st'' := {| s_com := s_com st'; s_tail := s_tail st'; s_allowed := com_id st';
+                     s_ghost := s_ghost st'; s_cap := s_cap st' |} in
+      let d' := pre_id st in
+      if yobs_eqb (yobs_of st'' d') after then Some (st'', d', al) else None
+  | YsAllow t ok after =>
+      let r := if negb (c_ext c) then None
+               else if t <=? al then Some al
+               else Some (if pre_id st <? t then pre_id st else t) in
+      let al' := match r with Some x => x | None => al end in
+      if Bool.eqb (match r with Some _ => true | None => false end) ok && yobs_eqb (yobs_of st d) after
+      then Some (st, d, al') else None
+  | YsDiscard t out after =>
+      let r := discard st t in
+      let st' := match r with Ok (s', _) => s' | _ => st end in
+      let d' := if pre_id st' <? d then pre_id st' else d in
+      if res_eqb N.eqb (match r with Ok (_, n) => Ok n | Err e => Err e | Panic => Panic end) out
+         && yobs_eqb (yobs_of st' d') after then Some (st', d', al) else None
+  end.
+
+Fixpoint run_ysteps (c : cfg) (sda : store * N * N) (l : list ystep) : bool :=
+  match l with
+  | [] => true
+  | s :: r => match ystep_ok c sda s with Some x => run_ysteps c x r | None => false end
+  end.
+
 Inductive case :=
+| CSynced (c : cfg) (steps : list ystep)
 | CStore (c : cfg) (steps : list step)
 | CSync (acks : N) (c : cfg) (nrep : N) (steps : list dstep)
 (* TxHeader.Alh() of a header read from the primary *)
@@ -134,6 +198,7 @@ Inductive case :=
 
 Definition case_ok (c : case) : bool :=
   match c with
+  | CSynced c steps => run_ysteps c (store_open c, 0, 0) steps
   | CStore c steps => run_steps c (store_open c) steps
   | CSync acks c nrep steps =>
       run_dsteps acks c (primary_init, repeat (store_open c) (N.to_nat nrep)) steps
